@@ -40,7 +40,7 @@ pub enum MFocus {
     Wide,
 }
 
-const MAX_HANDLERS: usize = 1500;
+const MAX_HANDLERS: usize = 8000;
 
 #[derive(Clone, Debug, PartialEq, Eq, Hash, PartialOrd, Ord)]
 pub struct RMsg {
@@ -1287,7 +1287,8 @@ fn raw_model(f: MFocus, nscripts: u16) -> BoxedStrategy<RawModel> {
 
 fn wide_bench_strategy() -> BoxedStrategy<Bench> {
     (
-        proptest::sample::select(vec![100usize, 127, 128, 129, 130, 160, 255, 256, 257, 300]),
+        // around one injector bucket (128) and one local queue (256), and well beyond both
+        proptest::sample::select(vec![100usize, 127, 128, 129, 130, 160, 255, 256, 257, 300, 520, 700, 1100, 1500]),
         1usize..4,
         1usize..3,
         any::<bool>(),
